@@ -33,6 +33,7 @@ func (x *Exec) step(f *frame, in ssa.Instruction) {
 			v = Val{T: x.havocValue(st, in.Val.Type(), "esc")}
 		}
 		if a.Kind != aCell {
+			x.critCheck(st, a, in.Pos())
 			x.frameCheck(st, a, in.Pos())
 		}
 		x.storeAddr(st, a, v.T)
